@@ -15,7 +15,8 @@ TARGETS = os.path.join(os.path.dirname(os.path.abspath(__file__)), "c20_targets"
 KIND_TARGET = {"std": [], "fromimport": "vt_mod_a.connect", "unloaded": ["vt_mod_b.write_pandas", "vt_mod_b.connect"],
                "nomodule": "no_such_module_xyz.connect", "noattr": "vt_mod_a.nothing", "notsnow": "os.getcwd",
                # a genuine connector function bound under another name; a foreign function that merely is called connect
-               "alias": "vt_mod_a.sf_connect", "notsnow_named": "vt_mod_c.connect"}
+               "alias": "vt_mod_a.sf_connect", "notsnow_named": "vt_mod_c.connect",
+               "unloaded_indirect": "vt_mod_d.connect", "unloaded_noattr": "vt_mod_e.nothing"}
 
 
 def _child(ops, seedtxt):
@@ -54,7 +55,7 @@ def _child(ops, seedtxt):
     def extra(k):
         if k == "std":
             return "na"
-        mod = vt_mod_a if k in ("fromimport", "alias") else sys.modules.get("vt_mod_b")
+        mod = vt_mod_a if k in ("fromimport", "alias") else sys.modules.get("vt_mod_d" if k == "unloaded_indirect" else "vt_mod_b")
         if mod is None:
             return "na"
         fn = mod.sf_connect if k == "alias" else mod.connect
